@@ -317,3 +317,167 @@ def r8(ctx):
                 ctx.fail(b, 'raw-slice|' + fn.rsplit('::', 1)[-1], '%s slices the raw text `%s` with `%s` at line %d: positions here are character indices, not byte offsets' % (
                     fn, show_in(b, rcv)[:40], (t.callee_res() or '').rsplit('::', 1)[-1], t.span['line']), t.span)
     ctx.ok(None, 'no raw string slicing in the %d window bodies' % n)
+
+
+def charstring_positions(ctx):
+    """the positional accessors of CharString agree with the stored cluster lengths: byte_start_end walks the run-length table with the
+    right carries, char_byte_len / char_range_to_byte_range / get / sub are built from it with the right components and bounds.
+    ("byte and character boundaries denote the same positions" rests on these; shared by the properties that slice by characters)"""
+    from analysis import pathx, poly
+    from analysis.alts import flatten, expand
+    from rules.common import str_slice, lt_facts_at
+    CSX = 'unicode::CharString::'
+    SELF = ('arg', 1, ANY)
+    BSE = lambda arg: Call(CSX + 'byte_start_end', SELF, arg)
+    # ---- byte_start_end
+    b = ctx.body(CSX + 'byte_start_end')
+    loops = cfg.loops(b)
+    if len(loops) != 1:
+        raise AnchorMissing('the run loop of byte_start_end (found %d loops)' % len(loops))
+    lp = loops[0]
+    nx = [t for t in b.calls(r'::next$') if t.bb in lp.blocks]
+    if len(nx) != 1 or not has(core(loop_source(b, nx[0])), ('field', SELF, 'rle_cluster_lengths')):
+        raise AnchorMissing('byte_start_end iterates self.rle_cluster_lengths')
+    it = ('unwrap', nosite(sym(b, nx[0].dest)))
+    nb_, cnt_ = poly.poly(core(('field', it, 0))), poly.poly(core(('field', it, 1)))
+    st_l = [l for l in range(len(b.locals)) if b.var_name(l) == 'start']
+    named = {b.var_name(l): l for l in range(len(b.locals)) if b.var_name(l)}
+    accs = [l for l in state_locals(b, r'^usize$')]
+    rows = {'ret': [], 'back': []}
+    for p, end in pathx.paths_from(b, lp.header) or ():
+        pe = pathx.eval_versioned(b, p, {}, lambda e, pe_: ())
+        if pe is None or end[0] == 'exit':
+            continue
+        rows['ret' if end[0] == 'return' else 'back'].append((p, pe))
+    if len(rows['ret']) != 1 or len(rows['back']) != 1:
+        raise AnchorMissing('byte_start_end: one returning and one continuing path per run (found %d / %d)' % (len(rows['ret']), len(rows['back'])))
+    (pr, per), (pb, peb) = rows['ret'][0], rows['back'][0]
+    n_ = poly.poly(('arg', 2, 'n'))
+    ret = peel(per.env.get(0))
+    okr = ret is not None and ret[0] == 'agg' and ret[1] == 'tuple' and len(ret[3]) == 2
+    # the accumulators: the two usize state locals; which is which follows from the guard n < total + count
+    guard = [(core(t), pol) for t, pol in per.atoms if core(t)[0] == 'bin' and core(t)[1] in ('Lt', 'Le', 'Gt', 'Ge')]
+    tot = None
+    for l in accs:
+        v = ('var', b.var_name(l) or '', l)
+        for t, pol in guard:
+            lhs, rhs = (t[2], t[3]) if t[1] in ('Lt', 'Le') else (t[3], t[2])
+            strict = (t[1] in ('Lt', 'Gt')) == bool(pol) if pol else None
+            if pol is True and t[1] in ('Lt', 'Gt') and poly.poly(lhs) == n_ and poly.poly(rhs) == poly._add(poly.poly(v), cnt_, 1):
+                tot = l
+    ctx.require(tot is not None, b, 'bse-guard', 'byte_start_end returns from the run that contains n: `n < total_count + count` (strict)',
+                'byte_start_end returns under %s' % [('' if pol else '!') + show_in(b, t)[:60] for t, pol in guard], b.blocks[pr[-1]].term.span)
+    if tot is None or not okr:
+        return
+    startl = [l for l in accs if l != tot]
+    if len(startl) != 1:
+        raise AnchorMissing('byte_start_end: the byte offset accumulator')
+    sv, tv = poly.poly(('var', b.var_name(startl[0]) or '', startl[0])), poly.poly(('var', b.var_name(tot) or '', tot))
+    want0 = poly._add(sv, poly._mul(nb_, poly._add(n_, tv, -1)), 1)
+    ok0 = poly.poly(core(ret[3][0])) == want0
+    ok1 = poly._add(poly.poly(core(ret[3][1])), poly.poly(core(ret[3][0])), -1) == nb_
+    ctx.require(ok0, b, 'bse-start', 'start of character n = bytes before the run + num_bytes * (n - characters before the run)',
+                'byte_start_end returns the start `%s`' % show_in(b, ret[3][0])[:100], b.blocks[pr[-1]].term.span)
+    ctx.require(ok1, b, 'bse-end', 'end of character n = its start + num_bytes of the run', 'byte_start_end returns the end `%s`' % show_in(b, ret[3][1])[:100],
+                b.blocks[pr[-1]].term.span)
+    ds = peb.env.get(startl[0])
+    okds = ds is not None and poly._add(poly.poly(ds), sv, -1) == poly._mul(cnt_, nb_)
+    ctx.require(okds, b, 'bse-carry-bytes', 'a skipped run adds count * num_bytes to the byte offset', 'a skipped run changes the byte offset to `%s`' % (show_in(b, ds)[:80] if ds else 'nothing'))
+    dt = peb.env.get(tot)
+    okdt = dt is not None and poly._add(poly.poly(dt), tv, -1) == cnt_
+    if not okdt:
+        # `total_count += *count` through AddAssign<&usize>
+        okdt = any(e[0] == 'call' and (e[1].callee_res() or '').endswith('add_assign') and core(e[2][0])[0] == 'var' and core(e[2][0])[2] == tot and
+                   poly.poly(core(e[2][1])) == cnt_ for e in peb.events)
+    ctx.require(okdt, b, 'bse-carry-count', 'a skipped run adds count to the character counter', 'a skipped run does not add its count to the character counter')
+    inits = {l: [core(v) for s_, v in local_defs(b, l) if cfg.dominates(b, s_.bb, lp.header)] for l in (startl[0], tot)}
+    ctx.require(all(len(v) == 1 and v[0][0] == 'const' and v[0][2] == 0 for v in inits.values()), b, 'bse-init', 'both accumulators start at 0', 'initial values: %s' % inits)
+    # ---- char_byte_len
+    c = ctx.body(CSX + 'char_byte_len')
+    rv = ret_values(c)
+    ok = len(rv) == 1 and match(core(rv[0][0]), ('bin', 'Sub', ('field', BSE(('arg', 2, ANY)), 1), ('field', BSE(('arg', 2, ANY)), 0)))
+    ctx.require(ok, c, 'char-byte-len', 'char_byte_len(n) = end - start of byte_start_end(n)', 'char_byte_len is %s' % [show_in(c, v)[:80] for v, _ in rv])
+    # ---- char_range_to_byte_range
+    r = ctx.body(CSX + 'char_range_to_byte_range')
+    rv = ret_values(r)
+    okr2 = len(rv) == 1 and peel(rv[0][0])[0] == 'agg' and len(peel(rv[0][0])[3]) == 2
+    if not okr2:
+        raise AnchorMissing('(start_byte, end_byte) result of char_range_to_byte_range')
+    tup = peel(rv[0][0])[3]
+    ctx.require(match(core(init_value(r, tup[0])), ('field', BSE(('arg', 2, ANY)), 0)), r, 'range-start', 'start byte = start of the first character of the range',
+                'start byte is %s' % show_in(r, init_value(r, tup[0]))[:80])
+    ends = [core(a.value) for a in flatten(expand(ctx.facts, r, nosite(tup[1])))]
+    LAST = ('field', BSE(('bin', 'Sub', ('arg', 3, ANY), Const(1))), 1)
+    ONLY = ('field', BSE(('arg', 2, ANY)), 1)
+    ok = bool(ends) and all(match(e, LAST) or match(e, ONLY) for e in ends) and any(match(e, LAST) for e in ends)
+    ctx.require(ok, r, 'range-end', 'end byte = end of the LAST character of the range (character end - 1)', 'end byte can be %s' % [show_in(r, e)[:70] for e in ends])
+    pre = any(pol is True and match(core(t), ('bin', 'Le', ('arg', 3, ANY), Call(CSX + 'len', SELF))) for t, pol, g in atoms_at(r, rv[0][1])) and \
+        any(pol is True and match(core(t), ('bin', 'Lt', ('arg', 2, ANY), ('arg', 3, ANY))) for t, pol, g in atoms_at(r, rv[0][1]))
+    ctx.require(pre, r, 'range-precondition', 'the range is asserted non-empty and inside the text (start < end && end <= len)', None)
+    # ---- get
+    g_ = ctx.body(CSX + 'get')
+    for v, blk in ret_values(g_):
+        pv = peel(v)
+        if pv[0] == 'agg' and pv[2].endswith('Option::None'):
+            ok = any(op == 'Ge' and match(core(x), ('arg', 2, ANY)) and match(core(y), Call(CSX + 'len', SELF)) for op, x, y in cmp_facts_at(g_, blk)) or \
+                any(op == 'Le' and match(core(y), ('arg', 2, ANY)) and match(core(x), Call(CSX + 'len', SELF)) for op, x, y in cmp_facts_at(g_, blk))
+            ctx.require(ok, g_, 'get-none', 'get(n) is None exactly from n >= len()', None, g_.blocks[blk].term.span)
+        elif pv[0] == 'agg' and pv[2].endswith('Option::Some'):
+            sl = str_slice(init_value(g_, pv[3][0]))
+            ok = sl is not None and match(core(sl[0]), ('field', SELF, 'str')) and sl[1] is not None and sl[2] is not None and \
+                match(core(init_value(g_, sl[1])), ('field', BSE(('arg', 2, ANY)), 0)) and match(core(init_value(g_, sl[2])), ('field', BSE(('arg', 2, ANY)), 1))
+            ctx.require(ok, g_, 'get-some', 'get(n) = &self.str[start..end] of byte_start_end(n)', 'get(n) is %s' % show_in(g_, pv[3][0])[:100], g_.blocks[blk].term.span)
+    # ---- sub
+    s_ = ctx.body(CSX + 'sub')
+    CL = lambda a: Call('::min', ('arg', a, ANY), Call(CSX + 'len', SELF))
+    RNG = Call(CSX + 'char_range_to_byte_range', SELF, CL(2), CL(3))
+    n_slices = 0
+    for v, blk in ret_values(s_):
+        sl = str_slice(init_value(s_, v))
+        if sl is None:
+            # `if self.is_empty() || start == end { return "" }`: every way to the "" crosses one of the two tests taken as true
+            via = [(g.block, g.target) for g in edge_guards(s_) if g.atom()[1] is True and
+                   (match(core(g.atom()[0]), Call(CSX + 'is_empty', SELF)) or (core(g.atom()[0])[0] == 'bin' and core(g.atom()[0])[1] == 'Eq'))] + \
+                  [(g.block, g.target) for g in edge_guards(s_) if g.atom()[1] is False and core(g.atom()[0])[0] == 'bin' and core(g.atom()[0])[1] == 'Ne']
+            ok = match(core(v), Pred(lambda u: u[0] == 'const')) and bool(via) and cfg.must_pass(s_, 0, blk, via_edges=via)
+            ctx.require(ok, s_, 'sub-empty', 'sub returns "" only for an empty text or an empty (clamped) range', 'sub returns %s' % show_in(s_, v)[:60], s_.blocks[blk].term.span)
+            continue
+        n_slices += 1
+        ok = match(core(sl[0]), ('field', SELF, 'str')) and sl[1] is not None and sl[2] is not None and \
+            match(core(init_value(s_, sl[1])), ('field', RNG, 0)) and match(core(init_value(s_, sl[2])), ('field', RNG, 1))
+        ctx.require(ok, s_, 'sub-slice', 'sub(a, b) = &self.str[bytes of the characters min(a, len) .. min(b, len)]', 'sub returns %s' % show_in(s_, init_value(s_, v))[:140],
+                    s_.blocks[blk].term.span)
+    ctx.require(n_slices == 1, s_, 'sub-one-slice', 'sub has one slicing result', 'found %d' % n_slices)
+    # ---- chars / get_char / Character accessors
+    from analysis.seq import seq_of_iter, ITEM as _IT
+    from rules.common import range_bounds
+    ch = ctx.body(CSX + 'chars')
+    rvc = ret_values(ch)
+    segs = seq_of_iter(ctx.facts, ch, rvc[0][0]) if len(rvc) == 1 else None
+    ok = segs is not None and len(segs) == 1 and segs[0].kind == 'each' and not segs[0].conds and range_bounds(segs[0].src) is not None and \
+        range_bounds(segs[0].src)[0] == 0 and match(range_bounds(segs[0].src)[1], Call(CSX + 'len', SELF)) and \
+        match(core(segs[0].elem), Call(CSX + 'get_char', ANY, _IT))
+    ctx.require(ok, ch, 'chars-all', 'chars() yields get_char(i) for every i in 0..len(), in order', 'chars() is %s' % [repr(x)[:120] for x in segs or ()])
+    gc = ctx.body(CSX + 'get_char')
+    rvg = ret_values(gc)
+    okg = len(rvg) == 1 and match(peel(rvg[0][0]), Call('Option::map', Call(CSX + 'get', SELF, ('arg', 2, ANY)), ANY))
+    if okg:
+        from analysis.seq import apply_fn
+        e = core(apply_fn(ctx.facts, peel(rvg[0][0])[2][1], (('probe',),)))
+        okg = e[0] == 'agg' and e[2].endswith('Character::Character') and len(e[3]) == 1 and e[3][0] == ('probe',)
+    ctx.require(okg, gc, 'get-char', 'get_char(n) = get(n) wrapped into a Character', 'get_char is %s' % [show_in(gc, v)[:80] for v, _ in rvg])
+    for fn, pat, what in (('unicode::Character::code_points', Call('str::chars', ('field', SELF, 'str')), 'the code points of its text'),
+                          ('unicode::Character::byte_len', Call('str::len', ('field', SELF, 'str')), 'the byte length of its text')):
+        x = ctx.body(fn)
+        rvx = ret_values(x)
+        ctx.require(len(rvx) == 1 and match(core(rvx[0][0]) if fn.endswith('byte_len') else peel(rvx[0][0]), pat), x, 'character|' + fn.rsplit('::', 1)[-1],
+                    '%s = %s' % (fn, what), '%s is %s' % (fn, [show_in(x, v)[:80] for v, _ in rvx]))
+
+
+@rule('C16', 'R-C16-10', 'T13 PAIR (character positions <-> byte positions)',
+      'CharString::byte_start_end walks the run-length table of cluster lengths with the right carries (bytes += count * num_bytes, '
+      'characters += count, return inside the run that contains n); char_byte_len, char_range_to_byte_range (end of the LAST character), '
+      'get (None from n >= len) and sub (clamped range, slice of self.str) are built from it: byte and character boundaries of every '
+      'window denote the same positions')
+def r10(ctx):
+    charstring_positions(ctx)
